@@ -22,3 +22,20 @@ Example C02_jit_discipline_nonvacuous :
   discipline [("CAR"%string, "car-reg"%string, true, true); ("CONS"%string, "cons-handler-value"%string, false, false)] = true /\
   discipline [("CAR"%string, "car-reg"%string, true, false)] = false.
 Proof. exact discipline_nonvacuous. Qed.
+
+(* every function / macro of jit.rs that stores an error in ctx.result clears ctx.is_native at least as often
+   (generated from the source on every run) *)
+Theorem C02_jit_helpers_clear_flag : helper_discipline Gen_C02jit.error_stores = true.
+Proof. vm_compute. reflexivity. Qed.
+
+(* with both halves of the contract native execution equals the interpreter's; without the helper's half a checked
+   site does not help *)
+Theorem C02_jit_flag_contract : forall p, Forall (fun c => fallible_sound (base c)) p ->
+  forallb (fun c => call_ok (base c) && implb (cfallible (base c)) (clears c)) p = true ->
+  forall st, native_flag p st = interp (map base p) st.
+Proof. exact native_flag_agrees. Qed.
+
+Theorem C02_jit_helper_not_clearing_flag_loses_error : exists p st,
+  Forall (fun c => fallible_sound (base c)) p /\ forallb (fun c => call_ok (base c)) p = true /\
+  native_flag p st <> interp (map base p) st.
+Proof. exact helper_not_clearing_flag_loses_error. Qed.
